@@ -131,7 +131,7 @@ Fixpoint raw_loop (rsrc : bytes) (acc : bytes) : bytes :=
 
 Definition encode_raw (src : bytes) : bytes :=
   let left_over := lenN src mod 3 in
-  let r := rev src in
+  let r := rev_append src [] in   (* = rev src; walks the input from its end *)
   if left_over =? 0 then raw_loop r []
   else if left_over =? 1 then
     match r with
